@@ -1,4 +1,5 @@
 """C04 — the Y86 register file reads old values, writes at cycle end, M port wins."""
+from props import C19
 import re
 from props.common_prog import judge_prog
 
@@ -39,4 +40,6 @@ def judge(req, impl, model, spec):
 
 def streams(tier, seed):
     q = tier == "quick"
-    return [{"name": "prog-regfile", "stream": "prog", "count": 600 if q else 20000, "extra": ("regfile",), "judge": judge}]
+    return [{"name": "prog-regfile", "stream": "prog", "count": 600 if q else 20000, "extra": ("regfile",), "judge": judge},
+            # what the user sees goes through the command line and the two files: the real binary on accepted, rejected, big, not-UTF-8, bare-CR files, good and malformed images, all options and TIMEOUT forms (as in C19)
+            {"name": "cli", "stream": "cli", "count": 200 if q else 5000, "pygen": C19.pygen, "judge": C19.judge}]
